@@ -126,6 +126,7 @@ fn install_panic_hook() {
 }
 
 struct RunSpec<'a> {
+    own: &'a str,
     scen: &'a Scenario,
     seed: u64,
     profile: Profile,
@@ -134,9 +135,21 @@ struct RunSpec<'a> {
     tracing: bool,
 }
 
+/// A clause "Cxx/..." belongs to property Cxx. Scenarios shared between checks evaluate the
+/// oracles of several properties; a check only reports clauses of its own property (plus
+/// untagged ones such as panics) so that `VIOLATION property=<id>` is attributed correctly.
+fn foreign_clause(own: &str, clause: &str) -> bool {
+    if let Some((p, _)) = clause.split_once('/') {
+        let is_prop = p.len() >= 3 && p.starts_with('C') && p[1..].chars().all(|c| c.is_ascii_digit());
+        return is_prop && p != own;
+    }
+    false
+}
+
 fn exec_run(spec: RunSpec<'_>) -> RunOut {
     let run = spec.scen.run;
     let RunSpec { seed, profile, thorough, replay, tracing, .. } = spec;
+    let own = spec.own.to_string();
     let h = std::thread::Builder::new()
         .name("simrun".into())
         .stack_size(32 << 20)
@@ -150,7 +163,11 @@ fn exec_run(spec: RunSpec<'_>) -> RunOut {
             // Dropping the units may run destructors of code under test: keep it inside a guard.
             let _ = std::panic::catch_unwind(std::panic::AssertUnwindSafe(exec::teardown));
             let c = ctx::end_run();
-            let mut vs: Vec<Violation> = c.soft.clone();
+            let mut vs: Vec<Violation> = c.soft.iter().filter(|v| !foreign_clause(&own, &v.clause)).cloned().collect();
+            let r = match r {
+                Ok(Err(v)) if foreign_clause(&own, &v.clause) => Ok(Ok(())),
+                other => other,
+            };
             let outcome = match r {
                 Ok(Ok(())) => {
                     if vs.is_empty() {
@@ -324,6 +341,18 @@ fn locate(plan: &[(usize, u64)], mut i: u64) -> usize {
     plan.last().unwrap().0
 }
 
+/// Process-wide one-time initialisations inside dependencies (lazily seeded hashers, CPU feature
+/// probes, ...) may draw from the entropy seam of whichever run triggers them first. Trigger them
+/// all in throw-away runs so that every measured run - and every replay in a fresh process -
+/// sees the same process state.
+fn warmup(check: &Check) {
+    for scen in &check.scenarios {
+        for (k, p) in scen.profiles.iter().enumerate() {
+            let _ = exec_run(RunSpec { own: check.id, scen, seed: 0xAA00 + k as u64, profile: *p, thorough: false, replay: None, tracing: false });
+        }
+    }
+}
+
 fn cmd_run(checks: &[Check], args: &[String]) -> i32 {
     let Some(id) = args.first() else {
         eprintln!("run: missing property id");
@@ -345,6 +374,7 @@ fn cmd_run(checks: &[Check], args: &[String]) -> i32 {
         std::env::var("VERIF_WALL_S").ok().and_then(|s| s.parse().ok()).unwrap_or(if tier == Tier::Quick { 120 } else { 1500 }),
     );
     let seed = base_seed();
+    warmup(check);
     let known = load_known(check.id);
     let plan = plan(check, tier, runs_override);
     let total: u64 = plan.iter().map(|p| p.1).sum();
@@ -390,7 +420,7 @@ fn cmd_run(checks: &[Check], args: &[String]) -> i32 {
                 let scen = &check.scenarios[si];
                 let profile = scen.profiles[(i % scen.profiles.len() as u64) as usize];
                 let rs = mix(seed, i);
-                let out = exec_run(RunSpec { scen, seed: rs, profile, thorough: tier == Tier::Thorough, replay: None, tracing: false });
+                let out = exec_run(RunSpec { own: check.id, scen, seed: rs, profile, thorough: tier == Tier::Thorough, replay: None, tracing: false });
                 let mut a = agg.lock().unwrap();
                 a.evaluations += 1;
                 a.fps_all.insert(out.fp);
@@ -455,7 +485,7 @@ fn cmd_run(checks: &[Check], args: &[String]) -> i32 {
         let si = locate(&plan, i);
         let scen = &check.scenarios[si];
         let profile = scen.profiles[(i % scen.profiles.len() as u64) as usize];
-        let out = exec_run(RunSpec { scen, seed: mix(seed, i), profile, thorough: tier == Tier::Thorough, replay: None, tracing: true });
+        let out = exec_run(RunSpec { own: check.id, scen, seed: mix(seed, i), profile, thorough: tier == Tier::Thorough, replay: None, tracing: true });
         let head: Vec<String> = out.trace.iter().take(40).cloned().collect();
         trace_samples.push(json!({"run": i, "scenario": scen.name, "profile": profile.name(), "trace_head": head, "trace_len": out.trace.len()}));
     }
@@ -469,7 +499,7 @@ fn cmd_run(checks: &[Check], args: &[String]) -> i32 {
         println!("run {i} (scenario {} profile {} seed {rs}) violated: {} — {}", scen.name, profile.name(), target.clause, target.detail);
         // confirm + shrink
         let fails = |cs: &[u32]| -> Option<RunOut> {
-            let out = exec_run(RunSpec { scen, seed: rs, profile, thorough: tier == Tier::Thorough, replay: Some(cs.to_vec()), tracing: false });
+            let out = exec_run(RunSpec { own: check.id, scen, seed: rs, profile, thorough: tier == Tier::Thorough, replay: Some(cs.to_vec()), tracing: false });
             match &out.outcome {
                 Outcome::Violations(v) if v.iter().any(|x| x.clause == target.clause) => Some(out),
                 _ => None,
@@ -483,7 +513,7 @@ fn cmd_run(checks: &[Check], args: &[String]) -> i32 {
             }
             Some(_) => (shrink(&choices, &fails, Duration::from_secs(if tier == Tier::Quick { 20 } else { 90 })), true),
         };
-        let fin = exec_run(RunSpec { scen, seed: rs, profile, thorough: tier == Tier::Thorough, replay: Some(min_choices.clone()), tracing: true });
+        let fin = exec_run(RunSpec { own: check.id, scen, seed: rs, profile, thorough: tier == Tier::Thorough, replay: Some(min_choices.clone()), tracing: true });
         let (clause, detail) = match &fin.outcome {
             Outcome::Violations(v) => v.iter().find(|x| x.clause == target.clause).map(|x| (x.clause.clone(), x.detail.clone())).unwrap_or((target.clause.clone(), target.detail.clone())),
             _ => (target.clause.clone(), target.detail.clone()),
@@ -495,11 +525,11 @@ fn cmd_run(checks: &[Check], args: &[String]) -> i32 {
             "property": check.id, "scenario": scen.name, "scenario_index": si, "seed": rs,
             "profile": profile.name(), "tier": tier.name(), "clause": clause, "detail": detail,
             "reproducible": reproducible, "original_choices": choices.len(),
-            "choices": if reproducible { fin.choices.clone() } else { min_choices.clone() },
+            "choices": min_choices.clone(),
             "trace": fin.trace,
         });
         std::fs::write(&path, serde_json::to_string_pretty(&rep).unwrap()).expect("write replay");
-        println!("minimised {} -> {} choices", choices.len(), fin.choices.len());
+        println!("minimised {} -> {} choices", choices.len(), min_choices.len());
         for l in fin.trace.iter().rev().take(25).rev() {
             println!("  {l}");
         }
@@ -666,6 +696,9 @@ fn shrink(orig: &[u32], fails: &dyn Fn(&[u32]) -> Option<RunOut>, budget: Durati
             break;
         }
     }
+    while cur.last() == Some(&0) {
+        cur.pop();
+    }
     cur
 }
 
@@ -700,7 +733,8 @@ fn cmd_replay(checks: &[Check], args: &[String]) -> i32 {
     let profile = profile_from(v["profile"].as_str().unwrap_or("none"));
     let thorough = v["tier"].as_str() == Some("thorough");
     let clause = v["clause"].as_str().unwrap_or("").to_string();
-    let out = exec_run(RunSpec { scen, seed, profile, thorough, replay: Some(choices), tracing: true });
+    warmup(check);
+    let out = exec_run(RunSpec { own: check.id, scen, seed, profile, thorough, replay: Some(choices), tracing: true });
     for l in &out.trace {
         println!("{l}");
     }
@@ -747,7 +781,7 @@ fn cmd_selftest(checks: &[Check], args: &[String]) -> i32 {
     // entropy seam: same seed => same std hash order and same "OS" randomness; other seed => different
     {
         let sc = Scenario::new("entropy-probe", 1, 1, entropy_probe);
-        let run = |s: u64| exec_run(RunSpec { scen: &sc, seed: s, profile: Profile::None, thorough: false, replay: None, tracing: true });
+        let run = |s: u64| exec_run(RunSpec { own: "", scen: &sc, seed: s, profile: Profile::None, thorough: false, replay: None, tracing: true });
         let (a, b, c) = (run(11), run(11), run(12));
         if a.loghash != b.loghash || a.loghash == c.loghash || a.entropy_draws == 0 {
             println!("selftest: entropy seam NOT effective (getrandom interposition broken): {:x} {:x} {:x} draws={}", a.loghash, b.loghash, c.loghash, a.entropy_draws);
@@ -762,6 +796,7 @@ fn cmd_selftest(checks: &[Check], args: &[String]) -> i32 {
         if !ids.is_empty() && !ids.contains(c.id) {
             continue;
         }
+        warmup(c);
         for (si, s) in c.scenarios.iter().enumerate() {
             for k in 0..seeds {
                 work.push((c.id, si, s.clone(), k));
@@ -781,7 +816,7 @@ fn cmd_selftest(checks: &[Check], args: &[String]) -> i32 {
                 let (id, si, scen, k) = &work[(i % n) as usize];
                 let profile = scen.profiles[(*k % scen.profiles.len() as u64) as usize];
                 let rs = mix(seed ^ crate::ctx::fnv(id.as_bytes()), *k * 31 + *si as u64);
-                let out = exec_run(RunSpec { scen, seed: rs, profile, thorough: false, replay: None, tracing: true });
+                let out = exec_run(RunSpec { own: id, scen, seed: rs, profile, thorough: false, replay: None, tracing: true });
                 let kind = match &out.outcome {
                     Outcome::Ok => "ok".to_string(),
                     Outcome::Capped => "capped".to_string(),
